@@ -151,6 +151,17 @@ func headStateRules(c *Ctx) {
 	c.Check("F", "mainchain/blockchain/HasState call sites enumerated", n >= 3, token.NoPos, n, "")
 }
 
+// tickerBeforeReplay: scheduling a timeout is a send on the ticker's bounded request channel, drained only by the ticker's
+// routine; whatever can schedule timeouts (the WAL replay, the first round) runs after the ticker was started. Shared by
+// C05 (restart) and C04 (the tabled "buffered send under the state lock" exception rests on the routine running).
+func tickerBeforeReplay(c *Ctx) {
+	if fn := c.Fn("consensus", "ConsensusState", "OnStart"); fn != nil {
+		start := CallTo(`^iface:\(consensus\.TimeoutTicker\)\.Start$`, "")
+		c.Precedes(fn, "start the timeout ticker", start, "replay the WAL (replayed steps schedule timeouts)", CallTo(`^\(\*consensus\.ConsensusState\)\.catchupReplay$`, ""))
+		c.Precedes(fn, "start the timeout ticker", start, "schedule the first round", CallTo(`^\(\*consensus\.ConsensusState\)\.scheduleRound0$`, ""))
+	}
+}
+
 func runC05(c *Ctx) {
 	c.Decided = []string{
 		"own (internal-queue) messages are handled only after WriteSync succeeded; peer messages and timeouts are written to the WAL before they are handled; handleMsg is entered only from the receive routine and WAL replay",
@@ -167,6 +178,8 @@ func runC05(c *Ctx) {
 	// the head height
 	validatorSetRoles(c)
 	headStateRules(c)
+	tickerBeforeReplay(c)
+	walFieldRules(c)
 
 	walAheadRules(c)
 	walDecodeRules(c)
